@@ -601,6 +601,7 @@ def conclude(pm, tier, seed, results, t0, extra=None, run_jobs=None, opts=None):
   refuted = [g for g in goals if g['status'] == 'refuted']
   unknown = [g for g in goals if g['status'] == 'unknown']
   proved = [g for g in goals if g['status'] == 'proved']
+  skipped = [g for g in goals if g['status'] == 'skipped']
 
   # --- CPython / TF cross-check of the operator contracts on the verified functions
   xc = [r['xcheck'] for r in results if r.get('xcheck')]
@@ -868,6 +869,7 @@ def build_evidence(pm, tier, seed, results, goals, proved, refuted, unknown, vio
       'refuted_known_findings': n_known,
       'refuted_new': len(violations),
       'undecided': len(unknown),
+      'skipped_after_refutation_of_same_clause_family': len([g for g in goals if g['status'] == 'skipped']),
       'checker_cmd': './check %s --tier %s' % (pm.PROPERTY, tier),
       'trusted_base': meta.get('trusted_base', []),
       'evaluations': len(goals),
